@@ -9,7 +9,7 @@ for p in /verif/selftest/$ID/*.patch; do
   case "$n" in *"$ONLY"*) ;; *) continue;; esac
   git -C /repo apply "$p" || { echo "SELFTEST $ID $n: patch does not apply"; rc=1; continue; }
   out=$(/verif/check $ID quick 2>&1); code=$?
-  git -C /repo checkout -- . 
+  git -C /repo apply -R "$p"
   case "$n" in
     benign*) if [ $code -eq 0 ]; then echo "SELFTEST $ID $n: ok (quiet)"; else echo "SELFTEST $ID $n: FALSE ALARM"; echo "$out" | tail -5; rc=1; fi;;
     *) if [ $code -eq 1 ] && echo "$out" | grep -q "^VIOLATION property=$ID"; then echo "SELFTEST $ID $n: ok (caught: $(echo "$out" | grep -c '^VIOLATION') obligations, $(echo "$out" | grep '^VIOLATION' | grep -vc no-failing-input-found) replayed on real code)"; else echo "SELFTEST $ID $n: MISSED (exit $code)"; echo "$out" | tail -5; rc=1; fi;;
